@@ -200,6 +200,36 @@ fn handle(req: &Value) -> Value {
             &req["cfg"],
             req["want_out"].as_bool().unwrap_or(false),
         ),
+        "phases" => {
+            // One thread, two phases: every input is parsed first, then every parsed invocation is generated (in the given order,
+            // then in reverse).  The generator is a function of the parsed invocation and the configuration: what was parsed in
+            // between must not matter.  Returns one hash per (pass, input).
+            let inputs: Vec<(String, Value)> = req["inputs"]
+                .as_array()
+                .map(|a| a.iter().map(|x| (x["input"].as_str().unwrap_or("").to_string(), x["cfg"].clone())).collect())
+                .unwrap_or_default();
+            let parsed: Vec<_> = inputs.iter().map(|(t, _)| parse_input(t)).collect();
+            let gen = |k: usize| -> String {
+                match &parsed[k] {
+                    Err((_, m)) => format!("{:016x}", fnv(m)),
+                    Ok(j) => {
+                        let cfgv = inputs[k].1.clone();
+                        match std::panic::catch_unwind(std::panic::AssertUnwindSafe(|| generate_join(j, cfg_of(&cfgv)).to_string())) {
+                            Ok(o) => format!("{:016x}", fnv(&o)),
+                            Err(e) => format!("{:016x}", fnv(&panic_msg(e))),
+                        }
+                    }
+                }
+            };
+            let mut evs = Vec::new();
+            for k in 0..inputs.len() {
+                evs.push(json!({"i": k, "h": gen(k)}));
+            }
+            for k in (0..inputs.len()).rev() {
+                evs.push(json!({"i": k, "h": gen(k)}));
+            }
+            json!({"events": evs})
+        }
         "hash" => {
             // expansion reduced to a hash of its string form (purity checks)
             let v = expand(req["input"].as_str().unwrap_or(""), &req["cfg"], true);
